@@ -405,5 +405,13 @@ _ADDED4["C17"] = " Blocks the tracer has never seen (from the wrapped allocator 
 _ADDED4["C08"] = " Clients take further references while the scheduler is in use (ThreadSchedAbs!AcqRef) and release them at the end."
 _ADDED4["C20"] = (" A joinable thread joins its own handle (refused, nothing changes); threads count themselves in and out of join-all "
                   "by hand (aws_thread_increment / decrement_unjoined_count) while join-all waits.")
+# round-5 additions (DESIGN 10.10)
+_ADDED4["C01"] += " Sources whose size fstat() does not know (a FIFO fed by another process; File.tla BufFromFifo)."
+_ADDED4["C03"] += " Page-survivor family: the last blocks of a full, no longer working page are resized inside / across classes or released."
+_ADDED4["C06"] += (" Queues of their own on 2-3 threads at once (Stateless.tla: an operation is a whole program on a private queue) "
+                   "with a ThreadSanitizer pass.")
+_ADDED4["C09"] += (" Sort under four comparator shapes; a quarter of the dynamic-list executions in an arena that packs blocks back to "
+                   "back (the element handed to push / set_at lies directly behind the list's storage); lists of their own on 2-3 "
+                   "threads at once with a ThreadSanitizer pass.")
 for _k, _t in _ADDED4.items():
     CLAIMED[_k]["text"] += _t
